@@ -550,7 +550,11 @@ impl<'r, 'a> Collector<'r, 'a> {
                 die("unsupported", &format!("{}: bind= side condition: the iterated expression of loop {key} is not a plain variable (or a parameterless method call on one)", self.rw.fn_path));
             }
             let r = rng(e);
-            let et = self.rw.text(e).to_string();
+            let et = match (&wrap, is_method(e, "iter")) {
+                // with wrap=: `B.iter()` -> `W(&(B))`
+                (Some(_), Some(it)) if it.args.is_empty() => self.rw.text(&*it.receiver).to_string(),
+                _ => self.rw.text(e).to_string(),
+            };
             let init = match &wrap { Some(w) => format!("{w}(&({et}))"), None => et.clone() };
             let w = wrap.clone().unwrap_or_else(|| "the iterated expression".to_string());
             self.edits.push(Edit { range: fs..fs, text: format!("let {b} = {init}; let ghost {b}_g = {b}@;\n"), prio: -7 });
@@ -948,7 +952,7 @@ impl<'ast, 'r, 'a> Visit<'ast> for Collector<'r, 'a> {
                 self.rw.log.push("R51 StateId::try_from(X).unwrap() -> __stateid_from_u32(X)".to_string());
                 self.edits.push(Edit { range: rng(e), text: format!("__stateid_from_u32({x})"), prio: 0 });
             }
-            // R47s: M.entry(K).or_default().insert(A)  ->  { __entry_or_default_set(&mut M, K); __entry_insert_set(&mut M, K, A) }
+            // R47s: M.entry(K).or_default().insert(A)  ->  __entry_or_default_insert_set(&mut M, K, A)
             // (a map of bitmaps; M a plain variable; K a variable or a field of one)
             syn::Expr::MethodCall(m)
                 if m.method == "insert" && self.rw.on("R47s") && m.args.len() == 1
@@ -967,8 +971,8 @@ impl<'ast, 'r, 'a> Visit<'ast> for Collector<'r, 'a> {
                 let mp = self.render(&en.receiver);
                 let k = self.render(&en.args[0]);
                 let a = self.render(&m.args[0]);
-                self.rw.log.push("R47s M.entry(K).or_default().insert(A) -> __entry_or_default_set; __entry_insert_set".to_string());
-                self.edits.push(Edit { range: rng(e), text: format!("{{ __entry_or_default_set(&mut {mp}, {k}); __entry_insert_set(&mut {mp}, {k}, {a}) }}"), prio: 0 });
+                self.rw.log.push("R47s M.entry(K).or_default().insert(A) -> __entry_or_default_insert_set".to_string());
+                self.edits.push(Edit { range: rng(e), text: format!("__entry_or_default_insert_set(&mut {mp}, {k}, {a})"), prio: 0 });
             }
             // R49: [A, B(, C)].difference() / .intersection() (roaring::MultiOps on an array of bitmap references)
             //   -> __rb_difference2(A, B) / __rb_difference3(A, B, C) / __rb_intersection2(A, B)
